@@ -296,7 +296,7 @@ func scanSibRet(c *core.Ctx) []ob {
 						}
 					}
 				}
-				props := append(append([]string{}, propsForKey(core.ShortPkg(pk.PkgPath) + ".")...), "C05", "C06")
+				props := append(append([]string{}, propsForKey(core.ShortPkg(pk.PkgPath)+".")...), "C05", "C06")
 				if len(rm) > 0 && len(pmm) > 0 {
 					out = append(out, withProps(violOb("SIBRET", key, c.Rel(ppos), fmt.Sprintf("the sibling methods %s of %s return field %s of the receiver, but %s takes it from the parameter: the two operands need not agree on it (one of them may not have it set)", strings.Join(rm, ", "), tn, fname, strings.Join(pmm, ", "))), props...))
 				} else {
@@ -1144,6 +1144,350 @@ func init() {
 			}
 			for _, o := range control(c, "DIGITMAX", scanDigitMax, "lvfixture.fillDigits") {
 				out = append(out, withProps(o, "C14"))
+			}
+			return out
+		}})
+}
+
+// NILSIB — what the constructor tolerates, the With* sibling tolerates.
+//
+// `NewEvaluator(params, nil)` is a supported configuration (an evaluator without keys: operations that need one return
+// an error): the constructor calls the key set's methods only under `!utils.IsNil(evk)`. `WithKey(evk)` stores its
+// argument in the same field; calling `evk.GetGaloisKeysList()` there without the test makes `WithKey(nil)` — "drop the
+// keys" — a nil-pointer panic. Engler's contradiction rule: one path believes the value may be nil, its sibling
+// dereferences it unconditionally.
+//
+// Rule: when a New* constructor of T stores an interface-typed parameter p in a field F and calls methods on p only
+// under a nil test of p, every method of T that stores a parameter in F calls that parameter's methods only under a nil
+// test of it.
+func scanNilSib(c *core.Ctx) []ob {
+	var out []ob
+	n := 0
+	nilTested := func(info *types.Info, pm map[ast.Node]ast.Node, at ast.Node, p types.Object) bool {
+		for _, h := range holdsAt(pm, at) {
+			found := false
+			ast.Inspect(h.cond, func(x ast.Node) bool {
+				switch v := x.(type) {
+				case *ast.CallExpr:
+					if s, ok := unparen(v.Fun).(*ast.SelectorExpr); ok && s.Sel.Name == "IsNil" && len(v.Args) == 1 && identObj(info, v.Args[0]) == p {
+						found = true
+					}
+				case *ast.BinaryExpr:
+					if (v.Op == token.NEQ || v.Op == token.EQL) && (identObj(info, v.X) == p && isNilIdent(v.Y) || identObj(info, v.Y) == p && isNilIdent(v.X)) {
+						found = true
+					}
+				}
+				return true
+			})
+			if found {
+				return true
+			}
+		}
+		return false
+	}
+	// storesInto: parameter -> field name it is stored in (x.F = p, or T{F: p})
+	storesInto := func(info *types.Info, fd *ast.FuncDecl, p types.Object) string {
+		f := ""
+		ast.Inspect(fd.Body, func(x ast.Node) bool {
+			switch v := x.(type) {
+			case *ast.AssignStmt:
+				if len(v.Lhs) == len(v.Rhs) {
+					for i, r := range v.Rhs {
+						if identObj(info, r) == p {
+							if s, ok := unparen(v.Lhs[i]).(*ast.SelectorExpr); ok {
+								f = s.Sel.Name
+							}
+						}
+					}
+				}
+			case *ast.KeyValueExpr:
+				if identObj(info, v.Value) == p {
+					if k, ok := v.Key.(*ast.Ident); ok {
+						f = k.Name
+					}
+				}
+			}
+			return true
+		})
+		return f
+	}
+	type belief struct {
+		ctor string
+		pos  token.Pos
+	}
+	// (type name, field) -> the constructor that guards
+	guards := map[string]belief{}
+	c.FuncDecls(func(pk *packages.Package, file *ast.File, fd *ast.FuncDecl) {
+		if fd.Body == nil || fd.Recv != nil || !strings.HasPrefix(fd.Name.Name, "New") || fileIsTestSupport(c.Program, fd.Pos()) || inExamples(pk) {
+			return
+		}
+		info := pk.TypesInfo
+		fn, _ := info.Defs[fd.Name].(*types.Func)
+		if fn == nil {
+			return
+		}
+		sig := fn.Type().(*types.Signature)
+		if sig.Results().Len() == 0 {
+			return
+		}
+		tn := namedOf(sig.Results().At(0).Type())
+		if tn == nil {
+			return
+		}
+		pm := parentMap(fd.Body)
+		for i := 0; i < sig.Params().Len(); i++ {
+			p := sig.Params().At(i)
+			if _, isIface := p.Type().Underlying().(*types.Interface); !isIface {
+				continue
+			}
+			field := storesInto(info, fd, p)
+			if field == "" {
+				continue
+			}
+			calls, guarded := 0, 0
+			ast.Inspect(fd.Body, func(x ast.Node) bool {
+				if call, ok := x.(*ast.CallExpr); ok {
+					if s, ok := unparen(call.Fun).(*ast.SelectorExpr); ok && identObj(info, s.X) == types.Object(p) {
+						calls++
+						if nilTested(info, pm, call, p) {
+							guarded++
+						}
+					}
+				}
+				return true
+			})
+			if calls > 0 && guarded == calls {
+				guards[pk.PkgPath+"."+tn.Obj().Name()+"."+field] = belief{fd.Name.Name, fd.Pos()}
+			}
+		}
+	})
+	c.FuncDecls(func(pk *packages.Package, file *ast.File, fd *ast.FuncDecl) {
+		if fd.Body == nil || fd.Recv == nil || fileIsTestSupport(c.Program, fd.Pos()) || inExamples(pk) {
+			return
+		}
+		info := pk.TypesInfo
+		named, _ := core.RecvNamed(info, fd)
+		fn, _ := info.Defs[fd.Name].(*types.Func)
+		if named == nil || fn == nil {
+			return
+		}
+		sig := fn.Type().(*types.Signature)
+		pm := parentMap(fd.Body)
+		for i := 0; i < sig.Params().Len(); i++ {
+			p := sig.Params().At(i)
+			if _, isIface := p.Type().Underlying().(*types.Interface); !isIface {
+				continue
+			}
+			field := storesInto(info, fd, p)
+			if field == "" {
+				continue
+			}
+			b, ok := guards[pk.PkgPath+"."+named.Obj().Name()+"."+field]
+			if !ok {
+				continue
+			}
+			n++
+			fkey := core.FuncKey(pk, fd)
+			key := "NILSIB:" + fkey + "#" + p.Name()
+			var bad *ast.CallExpr
+			ast.Inspect(fd.Body, func(x ast.Node) bool {
+				if call, ok := x.(*ast.CallExpr); ok && bad == nil {
+					if s, ok := unparen(call.Fun).(*ast.SelectorExpr); ok && identObj(info, s.X) == types.Object(p) && !nilTested(info, pm, call, p) {
+						bad = call
+					}
+				}
+				return true
+			})
+			props := append([]string{"C10"}, propsForKey(fkey)...)
+			if bad != nil {
+				out = append(out, withProps(violOb("NILSIB", key, c.Rel(bad.Pos()), fmt.Sprintf("%s stores %s in the field %s and calls %s without a nil test, although the constructor %s only calls the methods of the value it stores there under a nil test: a nil %s is a supported configuration that this method turns into a nil-pointer panic", fkey, p.Name(), field, exprString(bad.Fun), b.ctor, p.Name())), props...))
+			} else {
+				out = append(out, withProps(okOb("NILSIB", key, c.Rel(fd.Pos()), fmt.Sprintf("like %s, only uses %s under a nil test", b.ctor, p.Name()), true), props...))
+			}
+		}
+	})
+	c.Stats["nilsib_methods"] = n
+	return out
+}
+
+func init() {
+	core.Register(&core.Rule{Name: "NILSIB", Wide: true, Props: []string{"C10", "C04"},
+		Doc: "when a New* constructor of T stores an interface-typed parameter in a field and calls its methods only under a nil test, every method of T that stores a parameter in that field calls that parameter's methods only under a nil test of it",
+		Run: func(c *core.Ctx) []ob {
+			out := scanNilSib(c)
+			for _, o := range control(c, "NILSIB", scanNilSib, "(fxKeyed).WithKeys") {
+				out = append(out, withProps(o, "C10"))
+			}
+			return out
+		}})
+}
+
+// EQFIELDS — Equal compares every field that carries state.
+//
+// `func (p Parameters) Equal(other *Parameters) bool` that forgets a field answers "equal" for two objects that behave
+// differently (bootstrapping parameters that differ only by the order of the circuit), and every round-trip test built
+// on Equal is blind to that field.
+//
+// Rule: for every method Equal of a struct type T whose parameter is (a pointer to) T, every field of T that some other
+// function of the module reads is mentioned in the body through the receiver or through the parameter (x.F), unless the
+// body compares the whole values (`*x == *y`, reflect.DeepEqual, cmp.Equal) or delegates to an Equal of an embedded
+// part that holds the field.
+func scanEqFields(c *core.Ctx) []ob {
+	var out []ob
+	n := 0
+	reads := fieldReads(c.Program)
+	c.FuncDecls(func(pk *packages.Package, file *ast.File, fd *ast.FuncDecl) {
+		if fd.Body == nil || fd.Recv == nil || fd.Name.Name != "Equal" || fileIsTestSupport(c.Program, fd.Pos()) || inExamples(pk) {
+			return
+		}
+		info := pk.TypesInfo
+		named, _ := core.RecvNamed(info, fd)
+		recv := recvObj(info, fd)
+		fn, _ := info.Defs[fd.Name].(*types.Func)
+		if named == nil || recv == nil || fn == nil {
+			return
+		}
+		st, _ := named.Underlying().(*types.Struct)
+		sig := fn.Type().(*types.Signature)
+		if st == nil || sig.Params().Len() != 1 || !sameNamed(sig.Params().At(0).Type(), named) {
+			return
+		}
+		other := sig.Params().At(0)
+		whole := false
+		mentioned := map[string]bool{}
+		ast.Inspect(fd.Body, func(x ast.Node) bool {
+			switch v := x.(type) {
+			case *ast.SelectorExpr:
+				if o := identObj(info, v.X); o == types.Object(recv) || o == types.Object(other) {
+					mentioned[v.Sel.Name] = true
+				}
+			case *ast.BinaryExpr:
+				if v.Op == token.EQL || v.Op == token.NEQ {
+					root := func(e ast.Expr) types.Object {
+						e = unparen(e)
+						if s, ok := e.(*ast.StarExpr); ok {
+							e = unparen(s.X)
+						}
+						return identObj(info, e)
+					}
+					a, b := root(v.X), root(v.Y)
+					if (a == types.Object(recv) && b == types.Object(other)) || (b == types.Object(recv) && a == types.Object(other)) {
+						whole = true
+					}
+				}
+			case *ast.CallExpr:
+				// s.Cmp(s1): another method of the receiver applied to the parameter — the fields it mentions count
+				if sel, ok := unparen(v.Fun).(*ast.SelectorExpr); ok && identObj(info, sel.X) == types.Object(recv) && len(v.Args) == 1 && identObj(info, v.Args[0]) == types.Object(other) {
+					if m := calleeFunc(info, v); m != nil {
+						for _, f2 := range pk.Syntax {
+							for _, d2 := range f2.Decls {
+								md, ok := d2.(*ast.FuncDecl)
+								if !ok || md.Body == nil || md.Recv == nil {
+									continue
+								}
+								if o, _ := info.Defs[md.Name].(*types.Func); o == nil || funcOrigin(o) != funcOrigin(m) {
+									continue
+								}
+								mr := recvObj(info, md)
+								ast.Inspect(md.Body, func(y ast.Node) bool {
+									if s2, ok := y.(*ast.SelectorExpr); ok && mr != nil {
+										if r := rootIdent(s2.X); r != nil && info.Uses[r] == types.Object(mr) {
+											if id, ok := unparen(s2.X).(*ast.Ident); ok && info.Uses[id] == types.Object(mr) {
+												mentioned[s2.Sel.Name] = true
+											}
+										}
+									}
+									return true
+								})
+							}
+						}
+					}
+				}
+				if f := calleeFunc(info, v); f != nil && (f.Name() == "DeepEqual" || f.Name() == "Equal" && f.Pkg() != nil && strings.Contains(f.Pkg().Path(), "cmp")) {
+					for _, a := range v.Args {
+						e := unparen(a)
+						if u, ok := e.(*ast.UnaryExpr); ok {
+							e = unparen(u.X)
+						}
+						if s, ok := e.(*ast.StarExpr); ok {
+							e = unparen(s.X)
+						}
+						if o := identObj(info, e); o == types.Object(recv) || o == types.Object(other) {
+							whole = true
+						}
+					}
+				}
+			}
+			return true
+		})
+		n++
+		fkey := core.FuncKey(pk, fd)
+		props := append([]string{"C08", "C10"}, propsForKey(fkey)...)
+		if whole {
+			out = append(out, withProps(okOb("EQFIELDS", "EQFIELDS:"+fkey, c.Rel(fd.Pos()), "compares the whole values", false), props...))
+			return
+		}
+		// a field held by an embedded part whose own Equal is called counts as compared
+		for i := 0; i < st.NumFields(); i++ {
+			f := st.Field(i)
+			key := fmt.Sprintf("EQFIELDS:%s#%s", fkey, f.Name())
+			if mentioned[f.Name()] {
+				out = append(out, withProps(okOb("EQFIELDS", key, c.Rel(fd.Pos()), "compared", true), props...))
+				continue
+			}
+			// promoted: x.Inner is mentioned through a promoted selector of one of its fields? then Inner itself is not
+			// named; accept an embedded field when any of its own fields/methods is selected on the receiver
+			if f.Embedded() {
+				promoted := false
+				ast.Inspect(fd.Body, func(x ast.Node) bool {
+					if s, ok := x.(*ast.SelectorExpr); ok {
+						if sel := info.Selections[s]; sel != nil && len(sel.Index()) > 1 && sel.Index()[0] == i {
+							if o := identObj(info, s.X); o == types.Object(recv) || o == types.Object(other) {
+								promoted = true
+							}
+						}
+					}
+					return true
+				})
+				if promoted {
+					out = append(out, withProps(okOb("EQFIELDS", key, c.Rel(fd.Pos()), "compared through a promoted member", true), props...))
+					continue
+				}
+			}
+			if rp, used := reads[fieldOrigin(f)]; used {
+				if ex := eqFieldsExempt[core.ShortPkg(pk.PkgPath)+"."+named.Obj().Name()+"."+f.Name()]; ex != "" {
+					out = append(out, withProps(okOb("EQFIELDS", key, c.Rel(fd.Pos()), "exempt: "+ex, false), props...))
+					continue
+				}
+				out = append(out, withProps(violOb("EQFIELDS", key, c.Rel(fd.Pos()), fmt.Sprintf("%s does not look at the field %s, which other code reads (e.g. %s): two values that differ only there are reported equal although they behave differently", fkey, f.Name(), c.Rel(rp))), props...))
+			} else {
+				out = append(out, withProps(okOb("EQFIELDS", key, c.Rel(fd.Pos()), "not compared, and never read anywhere in the module", true), props...))
+			}
+		}
+	})
+	c.Stats["eqfields_methods"] = n
+	return out
+}
+
+// eqFieldsExempt: pkg.Type.Field -> reason.
+var eqFieldsExempt = map[string]string{
+	"core/rlwe.Parameters.ringQ":      "derived by the constructor from logN, qi, ringType, which are compared",
+	"core/rlwe.Parameters.ringP":      "derived by the constructor from logN, pi, ringType, which are compared",
+	"schemes/bgv.Parameters.ringT":    "derived from the plaintext modulus, which is compared",
+	"schemes/bgv.Parameters.ringQMul": "derived from logN and the size of Q, which are compared through the embedded parameters",
+	"core/rlwe.Scale.Mod":             "by design: scales are compared by value; the modulus belongs to the parameter set and is absent from scales built with NewScale",
+}
+
+func init() {
+	core.Register(&core.Rule{Name: "EQFIELDS", Wide: true, Props: []string{"C08", "C10", "C19"},
+		Doc: "every Equal method of a struct type taking (a pointer to) the same type mentions each field of the struct that other code reads, through the receiver or the parameter, unless it compares the whole values",
+		Run: func(c *core.Ctx) []ob {
+			out := scanEqFields(c)
+			for _, o := range core.Floor("EQFIELDS", nil, "Equal methods", c.Stats["eqfields_methods"], 10) {
+				out = append(out, withProps(o, "C08"))
+			}
+			for _, o := range control(c, "EQFIELDS", scanEqFields, "(fxSet).Equal#order") {
+				out = append(out, withProps(o, "C08"))
 			}
 			return out
 		}})
